@@ -5,6 +5,8 @@
 //!   layout     one case per table: number of partitions the engine sees vs. the layout the model is told
 //!   edge:*     directed operand pairs at the edges of u8/u16/u32/i64 and their offset encodings through every
 //!              operator shell (vector∘vector, vector∘scalar, scalar∘vector; nullable or not)
+//!   edgeall:*  EVERY pair of the operators' edge sets, each judged alone (quick: one shell per pair, rotating;
+//!              thorough: all three shells)
 //!   expr:*     random expression trees of depth <= 3 over columns and constants: SELECT <expr> FROM t
 //!   sum:*      SELECT SUM(<expr>) FROM t  and  SELECT g, SUM(<expr>) FROM t  over partitionings chosen so that
 //!              overflow happens inside one partition, only at merge, or not at all
@@ -101,13 +103,21 @@ impl Layout {
         Layout { bounds, flush: vec![true; k], omit: true, lz4: false, batch_size: 1024, threads: 2, pref: 0 }
     }
     /// Partition boundaries as the query engine sees them: every flush closes a partition, the rows still in the
-    /// open buffer form the last one.
-    fn parts(&self) -> Vec<usize> {
+    /// open buffer form the last one.  `partition_combine_factor = 10^9` rules out compaction (`size * factor < cumulative
+    /// size of this and all later partitions`, table.rs `plan_compaction`, evaluated once per flush) except for a flushed
+    /// partition of size 0 bytes - one in which EVERY column is entirely NULL - that is followed by a partition of non-zero
+    /// size: then it and everything after it are merged into one partition.
+    fn parts(&self, cols: &[Col]) -> Vec<usize> {
+        let zero = |s: usize, e: usize| cols.iter().all(|c| c[s..e].iter().all(|x| x.is_none()));
         let mut out = vec![0];
         let mut open = 0;
         for b in 0..self.bounds.len() - 1 {
             let e = self.bounds[b + 1];
-            if self.flush[b] && e > open { out.push(e); open = e; }
+            if self.flush[b] {
+                if e > open { out.push(e); open = e; }
+                let k = out.len() - 1; // flushed partitions: out[i]..out[i+1]
+                if let Some(i) = (0..k).find(|&i| zero(out[i], out[i + 1]) && !zero(out[i], open)) { out.truncate(i + 1); out.push(open); }
+            }
         }
         let n = *self.bounds.last().unwrap();
         if n > open { out.push(n); }
@@ -197,24 +207,24 @@ fn sum_out(out: &QOut, grouped: bool) -> String {
 struct Ctx { cases: Cases }
 
 impl Ctx {
-    fn layout_case(&mut self, db: &Arc<LocustDB>, l: &Layout, class: &str) {
+    fn layout_case(&mut self, db: &Arc<LocustDB>, cols: &[Col], l: &Layout, class: &str) {
         let db2 = db.clone();
         let r = with_deadline(20, move || futures::executor::block_on(db2.run_query("SELECT c0 FROM t", true, true, vec![])));
         let imp = match r { Some(Ok(Ok(o))) => format!("parts:{}", o.query_plans.values().map(|x| *x as usize).sum::<usize>()), _ => "parts:?".into() };
-        self.cases.push(class, &format!("layout {}", bounds_tok(&l.parts())), &imp, &l.tag());
+        self.cases.push(class, &format!("layout {}", bounds_tok(&l.parts(cols))), &imp, &l.tag());
     }
     fn expr_case(&mut self, db: &Arc<LocustDB>, cols: &[Col], l: &Layout, e: &E, class: &str) {
         let q = format!("SELECT {} FROM t", sql(e));
         let out = query(db, &q);
         let imp = expr_out(&out);
-        let line = format!("expr {} {} {} {}", rpn(e), bounds_tok(&l.parts()), cols_tok(cols), imp);
+        let line = format!("expr {} {} {} {}", rpn(e), bounds_tok(&l.parts(cols)), cols_tok(cols), imp);
         self.cases.push(&format!("{}:{}", class, out_kind(&out)), &line, &imp, &format!("{} | {} | {}", q, l.tag(), out.detail()));
     }
     fn sum_case(&mut self, db: &Arc<LocustDB>, cols: &[Col], l: &Layout, e: &E, g: Option<usize>, class: &str) {
         let q = match g { Some(gi) => format!("SELECT c{}, SUM({}) FROM t", gi, sql(e)), None => format!("SELECT SUM({}) FROM t", sql(e)) };
         let out = query(db, &q);
         let imp = sum_out(&out, g.is_some());
-        let line = format!("sum {} {} {} {} {}", rpn(e), bounds_tok(&l.parts()), g.map(|x| x.to_string()).unwrap_or("-".into()), cols_tok(cols), imp);
+        let line = format!("sum {} {} {} {} {}", rpn(e), bounds_tok(&l.parts(cols)), g.map(|x| x.to_string()).unwrap_or("-".into()), cols_tok(cols), imp);
         self.cases.push(&format!("{}:{}", class, out_kind(&out)), &line, &imp, &format!("{} | {} | {}", q, l.tag(), out.detail()));
     }
 }
@@ -306,15 +316,20 @@ fn corpus(cx: &mut Ctx) {
 fn edge_values(op: char) -> (Vec<i64>, Vec<i64>) {
     let big = vec![MIN, MIN + 1, MIN + 2, -MAX / 2, -4294967296, -65536, -256, -2, -1, 0, 1, 2, 255, 256, 65535, 65536, 4294967295, 4294967296, MAX / 2, MAX / 2 + 1, MAX - 2, MAX - 1];
     match op {
-        '*' => (vec![MIN, MIN + 1, -3037000500, -3037000499, -4294967296, -65536, -2, -1, 0, 1, 2, 255, 65536, 4294967295, 4294967296, 3037000499, 3037000500, MAX / 2, MAX / 2 + 1, MAX - 1],
-                vec![MIN, -3037000500, -4294967296, -2, -1, 0, 1, 2, 3, 65536, 4294967296, 4294967297, 3037000499, 3037000500, MAX - 1]),
+        // factors around 2^31 / 2^32 on BOTH sides: 2^31 * 2^32 = 2^63 (one past MAX), -2^31 * 2^32 = MIN (exact),
+        // (2^32-1)^2 and 3037000500^2 (the smallest overflowing square) have both factors inside the u32 storage width
+        '*' => (vec![MIN, MIN + 1, -3037000500, -3037000499, -4294967296, -2147483648, -65536, -2, -1, 0, 1, 2, 255, 65536, 2147483647, 2147483648, 4294967295, 4294967296, 3037000499, 3037000500, MAX / 2, MAX / 2 + 1, MAX - 1],
+                vec![MIN, -3037000500, -4294967296, -4294967295, -2147483648, -2, -1, 0, 1, 2, 3, 65536, 2147483648, 4294967295, 4294967296, 4294967297, 3037000499, 3037000500, MAX - 1]),
         '/' | '%' => (big.clone(), vec![MIN, MIN + 1, -65536, -2, -1, 0, 1, 2, 255, 65536, MAX - 1]),
         _ => (big.clone(), big),
     }
 }
 
-/// Thorough tier: EVERY pair of the operator's edge sets, one pair per column pair (ten pairs per table), nullable and not.
-fn edge_exhaustive(cx: &mut Ctx) {
+/// EVERY pair of the operator's edge sets, one pair per column pair (ten pairs per table, each pair judged alone: an
+/// overflow of another pair cannot mask it), nullable and not.  `all_shells`: every pair through vector∘vector,
+/// vector∘scalar and scalar∘vector (thorough); otherwise the shell rotates with the table index (quick), so that every
+/// pair is judged alone in every run and every (pair, shell) combination within three seeds.
+fn edge_exhaustive(cx: &mut Ctx, all_shells: bool, rot: usize) {
     for op in OPS {
         let (ls, rs) = edge_values(op);
         let mut pairs: Vec<(i64, i64)> = vec![];
@@ -330,8 +345,16 @@ fn edge_exhaustive(cx: &mut Ctx) {
             }
             let l1 = Layout::single(3);
             let db1 = build(&single, &l1);
-            for j in 0..chunk.len() {
-                cx.expr_case(&db1, &single, &l1, &bin(op, E::Col(2 * j), E::Col(2 * j + 1)), &format!("edgeall:{}:vv1:{}", op, if nulls { "nullable" } else { "nonnull" }));
+            let nn = if nulls { "nullable" } else { "nonnull" };
+            for (j, (a, b)) in chunk.iter().enumerate() {
+                for shell in 0..3 {
+                    if !all_shells && shell != (ci / 2 + rot) % 3 { continue; }
+                    match shell {
+                        0 => cx.expr_case(&db1, &single, &l1, &bin(op, E::Col(2 * j), E::Col(2 * j + 1)), &format!("edgeall:{}:vv1:{}", op, nn)),
+                        1 => cx.expr_case(&db1, &single, &l1, &bin(op, E::Col(2 * j), E::K(lit(*b))), &format!("edgeall:{}:vs1:{}", op, nn)),
+                        _ => cx.expr_case(&db1, &single, &l1, &bin(op, E::K(lit(*a)), E::Col(2 * j + 1)), &format!("edgeall:{}:sv1:{}", op, nn)),
+                    }
+                }
             }
         }
     }
@@ -424,8 +447,8 @@ fn expr_stream(cx: &mut Ctx, rng: &mut Rng, tables: usize, per_table: usize) {
         let (cols, classes, n) = gen_table(rng);
         let l = gen_layout(rng, n);
         let db = build(&cols, &l);
-        cx.layout_case(&db, &l, "layout");
-        let np = l.parts().len() - 1;
+        cx.layout_case(&db, &cols, &l, "layout");
+        let np = l.parts(&cols).len() - 1;
         for _ in 0..per_table {
             let mut e = gen_expr(rng, cols.len(), 3);
             if !has_col(&e) { e = bin('+', E::Col(0), e); }
@@ -470,8 +493,8 @@ fn sum_stream(cx: &mut Ctx, rng: &mut Rng, tables: usize, per_table: usize) {
         let cols = vec![c0, c1, g];
         let l = gen_layout(rng, n);
         let db = build(&cols, &l);
-        cx.layout_case(&db, &l, "layout");
-        let np = (l.parts().len() - 1).min(3);
+        cx.layout_case(&db, &cols, &l, "layout");
+        let np = (l.parts(&cols).len() - 1).min(3);
         for _ in 0..per_table {
             let e = match rng.below(8) {
                 0..=3 => E::Col(0),
@@ -526,7 +549,10 @@ fn dbg_main(a: &[String]) {
     let cols: Vec<Col> = a[7..].iter().map(|c| c.split(',').map(|x| if x == "_" { None } else { Some(x.parse().unwrap()) }).collect()).collect();
     let db = build(&cols, &l);
     let out = query(&db, &a[6]);
-    println!("parts {:?}\n{}\n{}", l.parts(), out.tok(), out.detail());
+    let db2 = db.clone();
+    let r = with_deadline(20, move || futures::executor::block_on(db2.run_query("SELECT c0 FROM t", true, true, vec![])));
+    let engine = match r { Some(Ok(Ok(o))) => o.query_plans.values().map(|x| *x as usize).sum::<usize>().to_string(), _ => "?".into() };
+    println!("parts {:?} (engine reports {} partitions)\n{}\n{}", l.parts(&cols), engine, out.tok(), out.detail());
 }
 
 fn main() {
@@ -542,7 +568,7 @@ fn main() {
     let th = args.thorough();
     if want("corpus") { corpus(&mut cx); lap("corpus", cx.cases.n); }
     if want("edge") { edge_stream(&mut cx, &mut rng, if th { 6 } else { 2 }); lap("edge", cx.cases.n); }
-    if th && want("edgeall") && (args.seed / 1000) % 3 == 0 { edge_exhaustive(&mut cx); lap("edgeall", cx.cases.n); }
+    if want("edgeall") { edge_exhaustive(&mut cx, th && (args.seed / 1000) % 3 == 0, args.seed as usize % 3); lap("edgeall", cx.cases.n); }
     if want("expr") { expr_stream(&mut cx, &mut rng, if th { 150 } else { 30 }, if th { 15 } else { 10 }); lap("expr", cx.cases.n); }
     if want("sumdir") { sum_directed(&mut cx, &mut rng, th); lap("sumdir", cx.cases.n); }
     if want("sum") { sum_stream(&mut cx, &mut rng, if th { 120 } else { 30 }, if th { 8 } else { 6 }); lap("sum", cx.cases.n); }
